@@ -11,7 +11,6 @@ import (
 	"strconv"
 	"strings"
 	"time"
-
 )
 
 type LockFile struct {
@@ -244,6 +243,9 @@ func runCheck(lockMode bool, repo, verif, prop, tier, only, dump string, useCach
 		}
 	}
 	workers := runtime.NumCPU() / 2
+	if w, err := strconv.Atoi(os.Getenv("GOCV_WORKERS")); err == nil && w > 0 {
+		workers = w // selftest runs several checks side by side
+	}
 	if workers < 2 {
 		workers = 2
 	}
@@ -257,7 +259,7 @@ func runCheck(lockMode bool, repo, verif, prop, tier, only, dump string, useCach
 			eng.commuteVerdicts = verdicts
 			results = append(results, &fres{c: &Contract{FuncName: "map-range loops", Pkg: repoModule, Props: []string{p}}, fn: nil, fv: &FV{eng: eng, obls: co, unmodelled: map[string]bool{}, assumptionsUsed: map[string]bool{
 				"order independence is decided per loop by an iteration contract checked syntactically on go/ssa (footprints, commutative accumulators); distinct map entries are assumed not to share the objects reached through their values": true,
-				"bag accumulators (append) are order-independent only as multisets: that their consumers do not depend on the order is not proved": true,
+				"bag accumulators (append) are order-independent only as multisets: that their consumers do not depend on the order is not proved":                                                                                               true,
 				"goroutine interleavings are not decided": true}}})
 		}
 		if fo := eng.frameObligations(p); len(fo) > 0 {
@@ -319,7 +321,6 @@ func results2obls(jobs []*job) []*Obligation {
 	}
 	return os_
 }
-
 
 func writeLock(verif string, obls []*Obligation, old LockFile, known []KnownFinding) int {
 	lock := LockFile{Undecided: map[string]string{}, Counts: map[string]int{}, Functions: map[string][]string{}}
